@@ -522,6 +522,75 @@ Section RangeProofs.
     reflexivity.
   Qed.
 
+  (* an EMPTY NAL unit in front of further bytes, cbcs: the code looks at the first byte of what follows (the top
+     byte of the next length field); if that is a video NAL header value it hands the empty NAL unit to the slice
+     header parser, whose error is returned *)
+  Lemma pr_step_empty_cbcs_err pre b t cs ce ssps :
+    sch = Cbcs -> isvideo b = true -> hdr [] = Err ->
+    lenN (pre ++ frame [] ++ b :: t) < 4294967296 ->
+    pr_step isvideo hdr sch (pre ++ frame [] ++ b :: t) (lenN pre) cs ce ssps = Err.
+  Proof.
+    intros Hsch Hv Hh Hlen.
+    change (frame []) with (be_bytes4 0 ++ []) in *. rewrite app_nil_r in *.
+    set (sample := pre ++ be_bytes4 0 ++ b :: t) in *.
+    set (pos := lenN pre) in *.
+    assert (HL : lenN sample = pos + 4 + lenN (b :: t)).
+    { unfold sample. rewrite !lenN_app, be_bytes4_len. fold pos. lia. }
+    assert (Hb : 1 <= lenN (b :: t)) by (rewrite lenN_cons; lia).
+    assert (Hs2 : sample = (pre ++ be_bytes4 0) ++ [] ++ b :: t).
+    { unfold sample. rewrite <- !app_assoc. reflexivity. }
+    assert (Hs3 : sample = (pre ++ be_bytes4 0) ++ b :: t).
+    { unfold sample. rewrite <- !app_assoc. reflexivity. }
+    assert (Hpl : lenN (pre ++ be_bytes4 0) = pos + 4) by (rewrite lenN_app, be_bytes4_len; reflexivity).
+    unfold pr_step.
+    rewrite (u32_small (pos + 4)) by lia.
+    rewrite (slice_eq sample pre (be_bytes4 0) (b :: t) pos (pos + 4) eq_refl eq_refl)
+      by (rewrite be_bytes4_len; reflexivity).
+    cbn [rbind]. rewrite be_bytes4_be by lia. rewrite !N.add_0_r.
+    rewrite !(u32_small (pos + 4)) by lia.
+    assert (Hlt : (lenN sample <? pos + 4) = false) by (apply N.ltb_ge; lia).
+    rewrite Hlt.
+    rewrite (idx_eq sample _ b _ (pos + 4) Hs3) by (symmetry; exact Hpl).
+    cbn [rbind]. rewrite Hsch, Hv.
+    rewrite (slice_eq sample (pre ++ be_bytes4 0) [] (b :: t) (pos + 4) (pos + 4) Hs2)
+      by (rewrite ?Hpl, ?lenN_nil, ?N.add_0_r; reflexivity).
+    cbn [rbind]. rewrite Hh. reflexivity.
+  Qed.
+
+  Lemma protect_ranges_empty_inside_err pre0 n2 post0 :
+    sch = Cbcs -> isvideo (u8 (lenN n2 / 16777216)) = true -> hdr [] = Err ->
+    lenN (frames (pre0 ++ [] :: n2 :: post0)) < 4294967296 ->
+    Forall (fun n => decides n (P n) /\ Q (P n)) pre0 ->
+    protect_ranges_r isvideo hdr sch (frames (pre0 ++ [] :: n2 :: post0)) = Err.
+  Proof.
+    intros Hsch Hv Hh Hlen Hd.
+    assert (Hbt : exists t, frames (n2 :: post0) = u8 (lenN n2 / 16777216) :: t).
+    { cbn [frames flat_map]. unfold frame, be_bytes4. cbn [app]. eexists. reflexivity. }
+    destruct Hbt as (t & Hbt).
+    assert (Hfr : frames (pre0 ++ [] :: n2 :: post0) = [] ++ frames pre0 ++ (frame [] ++ frames (n2 :: post0))).
+    { unfold frames. rewrite flat_map_app. reflexivity. }
+    set (sample := frames (pre0 ++ [] :: n2 :: post0)) in *.
+    assert (H5 : 5 <= lenN (frame [] ++ frames (n2 :: post0))).
+    { rewrite Hbt, lenN_app, lenN_cons. change (lenN (frame [])) with 4. lia. }
+    unfold protect_ranges_r, protect_ranges_g.
+    assert (H4 : (lenN sample <? 4) = false).
+    { apply N.ltb_ge. rewrite Hfr. cbn [app]. rewrite lenN_app. lia. }
+    rewrite H4.
+    assert (Hfuel : (length pre0 < S (length sample))%nat).
+    { rewrite Hfr. cbn [app]. rewrite app_length. pose proof (frames_length0 pre0). lia. }
+    destruct (pr_loop_prefix pre0 (S (length sample)) sample [] 0 [] (frame [] ++ frames (n2 :: post0))
+                Hfr Hlen H5 Hfuel Hd (N.le_refl _)) as (f' & cs' & ssps' & H1 & H2 & H3).
+    change (lenN (@nil N)) with 0 in H3. rewrite H3. cbn [app] in *.
+    destruct f' as [|f']; [lia|]. cbn [pr_loop_g].
+    assert (HL : lenN sample = lenN (frames pre0) + lenN (frame [] ++ frames (n2 :: post0))) by (rewrite Hfr, lenN_app; reflexivity).
+    rewrite u32_small by lia.
+    assert (E : (lenN (frames pre0) <? lenN sample - 4) = true) by (apply N.ltb_lt; lia).
+    rewrite E. rewrite Hfr, Hbt.
+    rewrite (pr_step_empty_cbcs_err (frames pre0) _ t cs' (lenN (frames pre0)) ssps' Hsch Hv Hh)
+      by (rewrite <- Hbt, <- Hfr; exact Hlen).
+    reflexivity.
+  Qed.
+
   Lemma frames_length nalus : (length nalus <= length (frames nalus))%nat.
   Proof.
     induction nalus as [|n t IH]; [apply Nat.le_refl|].
